@@ -632,5 +632,151 @@ func (f *facts) flowTables(conn, tr *ast.File) string {
 			map[string]bool{"leave-loop": true, "next-iteration": true}, classify, effect)
 		emit("transportConnectFlow", rows, unk)
 	}
+	// (*Conn).saslAuthenticate: raw versus framed, and every way the un-framed exchange can fail
+	if fd := findFunc(conn, "Conn", "saslAuthenticate"); fd != nil {
+		last = ""
+		lenVar := ""
+		ast.Inspect(fd.Body, func(n ast.Node) bool {
+			if c, ok := n.(*ast.CallExpr); ok && selPath(c.Fun) == "readInt32" && len(c.Args) == 3 {
+				if u, ok := c.Args[2].(*ast.UnaryExpr); ok {
+					lenVar = src(f.fset, u.X)
+				}
+			}
+			return true
+		})
+		classify := func(e ast.Expr) string {
+			t := src(f.fset, e)
+			if bx, ok := e.(*ast.BinaryExpr); ok {
+				l, r := src(f.fset, bx.X), src(f.fset, bx.Y)
+				neg := ""
+				if bx.Op == token.EQL {
+					neg = "!"
+				}
+				if (bx.Op == token.EQL || bx.Op == token.NEQ) && r == "nil" && strings.HasPrefix(l, "err") {
+					switch last {
+					case "negotiate":
+						return neg + "negotiateFailed"
+					case "framed":
+						return neg + "framedExchangeFailed"
+					case "rawWrite":
+						return neg + "writeFailed"
+					case "rawFlush":
+						return neg + "flushFailed"
+					case "rawReadLen":
+						return neg + "lengthReadFailed"
+					}
+				}
+				if bx.Op == token.EQL && r == "v1" {
+					return "handshakeWasV1"
+				}
+				if bx.Op == token.EQL && r == "v0" {
+					return "!handshakeWasV1"
+				}
+				if bx.Op == token.NEQ && strings.HasSuffix(l, ".ErrorCode") && r == "0" {
+					return "errorCodeInAnswer"
+				}
+				if bx.Op == token.LSS && l == lenVar && r == "0" {
+					return "negativeLength"
+				}
+			}
+			_ = t
+			return ""
+		}
+		effect := func(n ast.Node) string {
+			switch x := n.(type) {
+			case *ast.CallExpr:
+				p := selPath(x.Fun)
+				switch {
+				case strings.HasSuffix(p, ".negotiateVersion") && len(x.Args) > 0:
+					last = "negotiate"
+					return "negotiate:" + src(f.fset, x.Args[0])
+				case strings.HasSuffix(p, ".writeOperation") || strings.HasSuffix(p, ".readOperation"):
+					last = "framed"
+					return "framedExchange"
+				case strings.HasSuffix(p, ".wb.writeInt32"):
+					return "rawLength"
+				case strings.HasSuffix(p, ".wb.Write"):
+					last = "rawWrite"
+					return "rawWrite"
+				case strings.HasSuffix(p, ".wb.Flush"):
+					last = "rawFlush"
+					return "rawFlush"
+				case p == "readInt32":
+					last = "rawReadLen"
+					return "rawReadLength"
+				case p == "readNewBytes":
+					return "rawReadBody"
+				}
+			case *ast.ReturnStmt:
+				if len(x.Results) == 2 {
+					if src(f.fset, x.Results[0]) == "nil" {
+						return "return:error"
+					}
+					return "return:data,err"
+				}
+			}
+			return ""
+		}
+		rows, unk := f.runScenarios(fd, []string{"negotiateFailed", "handshakeWasV1", "writeFailed", "flushFailed", "lengthReadFailed", "negativeLength"},
+			func(e ast.Expr) string {
+				p := classify(e)
+				switch strings.TrimPrefix(p, "!") {
+				case "framedExchangeFailed", "errorCodeInAnswer":
+					return "" // handled below as fixed
+				}
+				return p
+			}, effect)
+		_ = rows
+		_ = unk
+		rows, unk = f.runScenariosFixed(fd, []string{"negotiateFailed", "handshakeWasV1", "writeFailed", "flushFailed", "lengthReadFailed", "negativeLength"},
+			map[string]bool{"framedExchangeFailed": false, "errorCodeInAnswer": false}, nil, classify, effect)
+		emit("connSaslAuthenticateFlow", rows, unk)
+	}
+
+	// protocol.(*Conn).RoundTrip: the raw exchange is chosen by the message, never by the caller
+	if fd := findFunc(f.files["protocol/conn.go"], "Conn", "RoundTrip"); fd != nil {
+		okVar := ""
+		ast.Inspect(fd.Body, func(n ast.Node) bool {
+			if is, isIf := n.(*ast.IfStmt); isIf && is.Init != nil {
+				if as, isAs := is.Init.(*ast.AssignStmt); isAs && len(as.Lhs) == 2 && strings.Contains(src(f.fset, as.Rhs[0]), "RawExchanger") {
+					okVar = src(f.fset, as.Lhs[1])
+				}
+			}
+			return true
+		})
+		classify := func(e ast.Expr) string {
+			t := src(f.fset, e)
+			switch {
+			case t == okVar && okVar != "":
+				return "isRawExchanger"
+			case strings.HasSuffix(t, "!= nil"):
+				return "isPrepared"
+			}
+			if c, ok := e.(*ast.CallExpr); ok && strings.HasSuffix(selPath(c.Fun), ".Required") {
+				return "rawRequired"
+			}
+			return ""
+		}
+		effect := func(n ast.Node) string {
+			c, ok := n.(*ast.CallExpr)
+			if !ok {
+				return ""
+			}
+			p := selPath(c.Fun)
+			switch {
+			case p == "atomic.AddInt32":
+				return "nextId"
+			case strings.HasSuffix(p, ".Prepare"):
+				return "prepare"
+			case strings.HasSuffix(p, ".RawExchange"):
+				return "rawExchange"
+			case p == "RoundTrip":
+				return "framedRoundTrip"
+			}
+			return ""
+		}
+		rows, unk := f.runScenarios(fd, []string{"isPrepared", "isRawExchanger", "rawRequired"}, classify, effect)
+		emit("protocolConnRoundTripFlow", rows, unk)
+	}
 	return b.String()
 }
